@@ -166,9 +166,35 @@ SLOTS = ("angular", "distance", "velocity", "pressure", "temperature", "diameter
 
 
 def globals_snapshot():
+    """Process-wide state of the library that no argument carries: the documented globals and, found by walking the loaded
+    modules, every module-level datum and every class-level data attribute of the package (a change of any of them by a
+    computation or a construction is state shared behind the caller's back)."""
+    import sys  # pylint: disable=import-outside-toplevel
+    import types  # pylint: disable=import-outside-toplevel
+    from vf.snapshot import snap  # pylint: disable=import-outside-toplevel
+    data = (int, float, str, bool, type(None), list, tuple, dict, set, frozenset, pb.unit.AbstractDimension, pb.Unit)
+    walked = {}
+    for name, mod in sorted(sys.modules.items()):
+        if not (name == "py_ballisticcalc" or name.startswith("py_ballisticcalc.")) or mod is None:
+            continue
+        for k, v in sorted(vars(mod).items()):
+            if k.startswith("__"):
+                continue
+            if isinstance(v, type):
+                if v.__module__ != name:
+                    continue
+                for ck, cv in sorted(vars(v).items()):
+                    if ck.startswith("__") or callable(cv) or isinstance(cv, (property, staticmethod, classmethod, types.MemberDescriptorType,
+                                                                               types.GetSetDescriptorType)):
+                        continue
+                    if isinstance(cv, data):
+                        walked[f"{name}.{k}.{ck}"] = snap(cv)
+            elif isinstance(v, data) and not isinstance(v, types.ModuleType):
+                walked[f"{name}.{k}"] = snap(v)
     return {"preferred": {s: getattr(PreferredUnits, s) for s in SLOTS},
             "max_step": tcpkg._globalMaxCalcStepSizeFeet,  # pylint: disable=protected-access
-            "powder": tcpkg._globalUsePowderSensitivity}  # pylint: disable=protected-access
+            "powder": tcpkg._globalUsePowderSensitivity,  # pylint: disable=protected-access
+            "walked": walked}
 
 
 @contextlib.contextmanager
